@@ -392,3 +392,39 @@ def add_dummy_loop_decreases(fn_text):
         o, _ = block_after(fn_text, mask, mm.end())
         fn_text = fn_text[:o].rstrip() + "\n decreases 0int,\n" + fn_text[o:]
     return fn_text
+
+
+def impl_blocks(src, type_name):
+    """(header_text, open, close) of every `impl ... type_name<...>` block (inherent or trait impl)."""
+    mask = code_mask(src)
+    out = []
+    for mm in find_all_code(src, mask, r"\bimpl\b"):
+        try:
+            o, c = block_after(src, mask, mm.end())
+        except LostAnchor:
+            continue
+        header = src[mm.start():o]
+        if re.search(r"\b" + re.escape(type_name) + r"\s*<", header) and not re.search(r"\bfn\b", header):
+            out.append((header, o, c))
+    return out
+
+
+def fns_in(src, o, c):
+    """names of the fn items directly inside the block src[o..c] (depth 1)."""
+    mask = code_mask(src)
+    names = []
+    depth = 0
+    i = o
+    while i <= c:
+        if mask[i]:
+            ch = src[i]
+            if ch == "{":
+                depth += 1
+            elif ch == "}":
+                depth -= 1
+            elif depth == 1 and src.startswith("fn ", i) and not _ident_before(src, i):
+                m = re.match(r"fn\s+(\w+)", src[i:i + 80])
+                if m:
+                    names.append(m.group(1))
+        i += 1
+    return names
